@@ -114,7 +114,7 @@ func (m mergeRunner) Run(c *Ctx, i int) CaseResult {
 	var mc MergeCase
 	id := ""
 	sigStats := map[string]int{}
-	if m.prop == "C09" || m.prop == "C10" {
+	if m.prop == "C09" || m.prop == "C10" || m.prop == "C03" {
 		// L2: merge.go's comparisons of two declarations of one field against Ms.typesEqual / Ms.argDefsEq (8 pairs per case)
 		for k := 0; k < 8; k++ {
 			sf, feat := MergeSigCorr(c, c.Rand(i*100+k+61000000))
@@ -689,9 +689,17 @@ func missingFromMerged(merged *ast.Schema, schemas []*ast.Schema, order []int) s
 				if mf == nil {
 					return fmt.Sprintf("field %s.%s of service %d", n, f.Name, k)
 				}
+				// with the same signature: the type of the field and of each argument as the service wrote it
+				if typeStr(mf.Type) != typeStr(f.Type) {
+					return fmt.Sprintf("field %s.%s of service %d with its type %s (merged: %s)", n, f.Name, k, typeStr(f.Type), typeStr(mf.Type))
+				}
 				for _, a := range f.Arguments {
-					if mf.Arguments.ForName(a.Name) == nil {
+					ma := mf.Arguments.ForName(a.Name)
+					if ma == nil {
 						return fmt.Sprintf("argument %s.%s(%s:) of service %d", n, f.Name, a.Name, k)
+					}
+					if typeStr(ma.Type) != typeStr(a.Type) {
+						return fmt.Sprintf("argument %s.%s(%s:) of service %d with its type %s (merged: %s)", n, f.Name, a.Name, k, typeStr(a.Type), typeStr(ma.Type))
 					}
 				}
 			}
